@@ -19,7 +19,7 @@ import (
 )
 
 // the three malformed placeholder shapes (fixed by the work package)
-var shapes = []string{"${{ 1 + }}", "${{ a b }}", "${{ 'x }}", "${{ github.sha }", "v-${{ github.sha"}
+var shapes = []string{"${{ 1 + }}", "${{ a b }}", "${{ 'x }}", "${{ github.sha }", "v-${{ github.sha", "${{}}", "${{  }}"}
 
 type position struct {
 	Path  string // canonical path: keys joined by '.', sequence indices as [i]
